@@ -8,6 +8,9 @@ mkdir -p $T/verif && git -C /verif archive HEAD | tar -x -C $T/verif   # committ
 (cd $T/repo && patch -p1 -s < /verif/seeded/$id/patch.diff) || { echo "patch failed"; exit 2; }
 sed -i "s#path = \"/repo\"#path = \"$T/repo\"#" $T/verif/harness/Cargo.toml $T/verif/gen/shapes/Cargo.toml $T/verif/gen/dropprobe/Cargo.toml
 cd $T/verif
+# TLC engine results depend on spec/ only: share them with /verif's cache (symlink), so that a trial does not re-run TLC
+H=$(python3 -c "import sys;sys.path.insert(0,'lib');import pipeline;print(pipeline.spec_hash())")
+mkdir -p /verif/.cache/$H $T/verif/.cache && ln -s /verif/.cache/$H $T/verif/.cache/$H
 for p in "$@"; do
   VERIF_REPO=$T/repo bin/check $p --tier ${TIER:-quick} > $T/$p.out 2>&1; rc=$?
   echo "seed=$id check=$p rc=$rc $(grep -c '^VIOLATION' $T/$p.out) violation line(s)"
